@@ -64,6 +64,14 @@ CLAIMED = {
             'exploration: held on ~10^4 points per quick run over 60 five-file families and 80 override pairs (2-6 coordinates, straight and gently curved trenches, slabs and faults, both coordinate systems)',
             'interpolated quantities are observed through temperature, composition, thickness, length and top truncation; angles only indirectly; the 20 % margin around section boundaries is not judged',
             'DESIGN.md section 4, C10'),
+    'C17': ('runtime monitoring: differential monitor at the process boundary - stdout of the sanitizer build of gwb-dat on generated data files parsed by header and compared column by column with the %g rendering of the library values obtained through the monitor process',
+            'exploration: held on ~3x10^3 printed rows per quick run (dim 2/3, 0-5 compositions, grain sets, convert spherical, separators, comment lines of every length, malformed rows) over corpus and generated worlds',
+            'only what is printed (6 significant digits) is compared; two header/column defects pinned by golden logs are known findings recognised by their exact signature',
+            'DESIGN.md section 4, C17'),
+    'C18': ('runtime monitoring: reference-model monitor at the process boundary - the ASCII VTU files of the sanitizer build of gwb-grid parsed and compared with an independent mesh generator (node set, logical cells, depth), with library values through the monitor process, and with the tag rule for the filtered / by-tag files',
+            'exploration: held on ~150 tool runs per quick run (cartesian/chunk 2D/3D, annulus, sphere; 1-40 cells per direction; several -j; --filtered/--by-tag), ~5x10^4 node comparisons',
+            'sphere meshes are checked structurally (shell radii, face sharing, volumes) rather than node by node; binary/compressed VTU formats are not parsed; the highest-tag rule of the filters is taken from the source',
+            'DESIGN.md section 4, C18'),
 }
 
 PENDING_REASON = 'check not built yet (work in progress; see DESIGN.md section 9)'
